@@ -16,6 +16,7 @@ claimed = {
  "C16": ("TimeoutHandler/TimeoutWithCodeHandler and explicit TimeoutError around handlers that keep mutating ctx after the timeout, timeouts 1 ms-1 s with handler durations at, just below and above them, several requests per connection, small Concurrency; response must be own output, exact timeout response or 429", "6/C16"),
  "C17": ("hijacking request followed by 0-9000 tail bytes arriving in the same segment, partly buffered or later, after 0-2 ordinary requests; ReduceMemoryUsage, HijackSetNoResponse, KeepHijackedConns; response-before-handover on the tap, tail byte equality, per-connection foreign-operation counter on the simulated socket", "6/C17"),
  "C04": ("1-5 concurrent callers x 1-3 calls over HostClient/Client/PipelineClient (MaxConns 1-3) against a scripted id-echo server (CL/chunked/close framing, delays, delayed body tails that are themselves well-formed responses, resets mid-response, 100-continue, Connection: close), Do/DoTimeout/DoDeadline, streamed bodies read partially and closed; id(header)=id(body)=id(request) oracle", "6/C04"),
+ "C18": ("2-8 concurrent callers x 1-3 calls on a HostClient with MaxConns 1-3, with and without MaxConnWaitTimeout, LIFO/FIFO, short MaxIdleConnDuration/MaxConnDuration, a scripted dialer (refuse, hang, slow) and a server that closes, resets or answers slowly; live-or-dialling connection monitor, own-response oracle, deadline bound, ConnsCount and open sockets back to zero after idle expiry on the fake clock", "6/C18"),
  "C33": ("PipeConns stream equality and Close semantics, InmemoryListener Dial/Accept/Close pairing, under seeded interleavings of writers, readers, deadlines and closers at every channel/select/mutex operation", "6/C33"),
 }
 na = {
